@@ -612,14 +612,16 @@ fn phase_too_many(r: &Runner, w: Which) {
 fn phase_chunk_digits(r: &Runner) {
     const TAILS: [&[u8]; 9] = [b"\r\n", b" \r\n", b";x\r\n", b"\r", b"", b"\t;\r\n", b"\n", b" 1\r\n", b";a\rb\r\n"];
     let pats = 8u64;
-    let total = 21 * pats * TAILS.len() as u64;
+    // digit counts: 0..=40, then around narrow-counter boundaries
+    let counts: Vec<usize> = (0..=40usize).chain(250..=275).chain(510..=530).chain(65530..=65555).collect();
+    let total = counts.len() as u64 * pats * TAILS.len() as u64;
     let build = |idx: u64| -> Vec<u8> {
         let mut x = idx;
         let t = (x % TAILS.len() as u64) as usize;
         x /= TAILS.len() as u64;
         let pat = x % pats;
         x /= pats;
-        let nd = x as usize;
+        let nd = counts[x as usize];
         let mut buf = Vec::new();
         for i in 0..nd {
             buf.push(match pat {
@@ -636,18 +638,104 @@ fn phase_chunk_digits(r: &Runner) {
         buf.extend_from_slice(TAILS[t]);
         buf
     };
-    r.par_enum("digit counts 0..=20 × 8 boundary patterns × 9 tails", total, |ctx, l, idx| {
+    r.par_enum("digit counts 0..=40, 250..=275, 510..=530, 65530..=65555 × 8 boundary patterns × 9 tails", total, |ctx, l, idx| {
         let rec = CaseRec::new("model", Entry::Chunk, 0, 0, build(idx));
         check(Which::C09, r, ctx, l, &rec)
     });
-    r.par_enum("all prefixes of the digit-count family", total * 32, |ctx, l, idx| {
-        let full = build(idx / 32);
-        let k = (idx % 32) as usize;
+    r.par_enum("prefixes (first 31 lengths and last 8) of the digit-count family", total * 40, |ctx, l, idx| {
+        let full = build(idx / 40);
+        let j = (idx % 40) as usize;
+        let k = if j < 32 { j } else { full.len().saturating_sub(j - 32) };
         if k > full.len() {
             return Ok(());
         }
         let rec = CaseRec::new("model", Entry::Chunk, 0, 0, full[..k].to_vec());
         check(Which::C09, r, ctx, l, &rec)
+    });
+}
+
+/// every hex digit character at every position of digit strings of length 1..=17
+fn phase_chunk_all_digits(r: &Runner) {
+    const HEX: &[u8; 22] = b"0123456789abcdefABCDEF";
+    const TAILS: [&[u8]; 4] = [b"\r\n", b" \t;x=y\r\n", b";\r\n", b"\r"];
+    let mut offs = vec![0u64];
+    for nd in 1..=17u64 {
+        offs.push(offs.last().unwrap() + nd);
+    }
+    let total = *offs.last().unwrap() * 22 * 3 * 4;
+    r.par_enum("digit strings of length 1..=17: each of the 22 hex digit characters at every position × 3 background patterns × 4 tails", total, |ctx, l, idx| {
+        let mut x = idx;
+        let tail = TAILS[(x % 4) as usize];
+        x /= 4;
+        let bg = x % 3;
+        x /= 3;
+        let d = HEX[(x % 22) as usize];
+        x /= 22;
+        let li = offs.partition_point(|&o| o <= x) - 1;
+        let nd = li + 1;
+        let pos = (x - offs[li]) as usize;
+        let mut buf: Vec<u8> = (0..nd).map(|i| match bg { 0 => b'0', 1 => b'f', _ => HEX[(i * 5 + nd) % 22] }).collect();
+        buf[pos] = d;
+        buf.extend_from_slice(tail);
+        let rec = CaseRec::new("model", Entry::Chunk, 0, 0, buf);
+        check(Which::C09, r, ctx, l, &rec)
+    });
+}
+
+/// methods of every length 1..=64 with a boundary byte at every position
+fn phase_methods(r: &Runner) {
+    const VALS: [u8; 16] = [b'A', b'z', b'0', b'!', b'~', b'|', b'@', b'(', b':', b' ', b'\t', 0x7f, 0x80, 0x00, b'\r', b'/'];
+    let mut offs = vec![0u64];
+    for len in 1..=64u64 {
+        offs.push(offs.last().unwrap() + len);
+    }
+    let total = *offs.last().unwrap() * 16 * 2;
+    r.par_enum("methods of every length 1..=64 × 16 boundary bytes at every position × multi-space", total, |ctx, l, idx| {
+        let mut x = idx;
+        let multi = x % 2 == 1;
+        x /= 2;
+        let v = VALS[(x % 16) as usize];
+        x /= 16;
+        let li = offs.partition_point(|&o| o <= x) - 1;
+        let len = li + 1;
+        let pos = (x - offs[li]) as usize;
+        let mut buf: Vec<u8> = (0..len).map(|i| b"GETPOSTX-M.a"[i % 12]).collect();
+        buf[pos] = v;
+        buf.extend_from_slice(b" /p HTTP/1.1\r\nA: b\r\n\r\n");
+        let rec = CaseRec::new("model", Entry::ReqCfg, if multi { C_MULTISPACE_REQ } else { 0 }, 4, buf);
+        check(Which::C06, r, ctx, l, &rec)
+    });
+}
+
+/// the 16 header base blocks behind start lines of every length (the header block then
+/// starts at every offset / alignment)
+fn phase_hdr_offsets(w: Which, r: &Runner, combos: &[(Entry, u8)]) {
+    let combos: Vec<(Entry, u8)> = combos.iter().cloned().filter(|c| c.0 != Entry::Headers).collect();
+    if combos.is_empty() {
+        return;
+    }
+    let total = HDR_BASES.len() as u64 * 71 * combos.len() as u64 * 2;
+    r.par_enum("16 header base blocks × start-line padding 0..=70 × option combos × {CRLF, LF start line}", total, |ctx, l, idx| {
+        let mut x = idx;
+        let lf = x % 2 == 1;
+        x /= 2;
+        let (entry, cfg) = combos[(x % combos.len() as u64) as usize];
+        x /= combos.len() as u64;
+        let pad = (x % 71) as usize;
+        let base = HDR_BASES[(x / 71) as usize];
+        let mut buf = Vec::with_capacity(base.len() + pad + 32);
+        if entry.kind() == Kind::Request {
+            buf.extend_from_slice(b"GET /");
+            buf.extend(std::iter::repeat(b'p').take(pad));
+            buf.extend_from_slice(b" HTTP/1.1");
+        } else {
+            buf.extend_from_slice(b"HTTP/1.1 200 ");
+            buf.extend(std::iter::repeat(b'r').take(pad));
+        }
+        buf.extend_from_slice(if lf { b"\n" } else { b"\r\n" });
+        buf.extend_from_slice(base);
+        let rec = CaseRec::new("model", entry, cfg, 16, buf);
+        check(w, r, ctx, l, &rec)
     });
 }
 
@@ -774,12 +862,41 @@ fn phase_many_lines(w: Which, r: &Runner) {
     });
 }
 
+/// k stored header lines for k at narrow-counter boundaries, followed by a line of a special
+/// shape, under every header-option combination
+fn phase_boundary_counts(w: Which, r: &Runner) {
+    let combos: Vec<(Entry, u8)> = match w {
+        Which::C08 => default_combos(),
+        Which::C14 | Which::C10 => c14_combos(),
+        _ => return,
+    };
+    const KS: [usize; 10] = [254, 255, 256, 257, 511, 512, 65534, 65535, 65536, 65537];
+    const TAILS: [&[u8]; 8] = [b" Lead: x\r\n\r\n", b"\t\r\n\r\n", b" cont\r\n\r\n", b"bad line\r\n\r\n", b"\r\n", b"N : v\r\n\r\n", b"E:\r\n \r\n\r\n", b"X: y\x00\r\n\r\n"];
+    let total = KS.len() as u64 * TAILS.len() as u64 * combos.len() as u64;
+    r.par_enum("k stored header lines for k in {254..257, 511, 512, 65534..65537} followed by one of 8 special lines (whitespace-led, whitespace-only, continuation, invalid, terminator, space before colon, empty-value fold, NUL) × option combos, ample capacity", total, |ctx, l, idx| {
+        let mut x = idx;
+        let (entry, cfg) = combos[(x % combos.len() as u64) as usize];
+        x /= combos.len() as u64;
+        let tail = TAILS[(x % TAILS.len() as u64) as usize];
+        let k = KS[(x / TAILS.len() as u64) as usize];
+        let mut block = Vec::with_capacity(k * 5 + 32);
+        for _ in 0..k {
+            block.extend_from_slice(b"a:b\n");
+        }
+        block.extend_from_slice(tail);
+        let rec = CaseRec::new("model", entry, cfg, k + 8, with_start_line(entry.kind(), &block));
+        check(w, r, ctx, l, &rec)
+    });
+}
+
 pub fn run(w: Which, r: &Runner) {
     families(w, r);
     phase_leading_lines(w, r);
     phase_many_lines(w, r);
+    phase_boundary_counts(w, r);
     match w {
         Which::C06 => {
+            phase_methods(r);
             phase_start_sweep(w, r);
             phase_targets(r, if r.quick() { 70 } else { 100 });
             phase_start_tokens(w, r, if r.quick() { 5 } else { 6 });
@@ -793,6 +910,7 @@ pub fn run(w: Which, r: &Runner) {
         }
         Which::C08 => {
             let combos = default_combos();
+            phase_hdr_offsets(w, r, &combos);
             phase_hdr_sweep(w, r, &combos);
             phase_hdr_lanes(w, r, if r.quick() { 70 } else { 100 }, &combos);
             phase_hdr_exhaustive(w, r, if r.quick() { 6 } else { 7 }, &combos,
@@ -801,6 +919,7 @@ pub fn run(w: Which, r: &Runner) {
             phase_g1(w, r, r.amount(5_000_000, 80_000_000), &MSG_KINDS, Profile::DEFAULT, 0, true);
         }
         Which::C09 => {
+            phase_chunk_all_digits(r);
             phase_chunk_digits(r);
             phase_chunk_exhaustive(r, if r.quick() { 6 } else { 7 });
             phase_g1(w, r, r.amount(2_000_000, 30_000_000), &CHUNK_KINDS, Profile::DEFAULT, 0, true);
@@ -820,6 +939,7 @@ pub fn run(w: Which, r: &Runner) {
         }
         Which::C14 => {
             let combos = c14_combos();
+            phase_hdr_offsets(w, r, &combos);
             phase_hdr_sweep(w, r, &combos);
             phase_hdr_lanes(w, r, if r.quick() { 40 } else { 100 }, &combos);
             phase_hdr_exhaustive(w, r, if r.quick() { 5 } else { 6 }, &combos,
